@@ -21,6 +21,7 @@ structure ConnObs where
 def P_C13_conn (kind : String) (otherTokens : List String) (o : ConnObs) : Verdict :=
   if kind == "idle" || kind == "flood" then
     if o.out.isEmpty && o.up.isEmpty then none else some "bytes-for-a-silent-connection"
+  else if kind == "sendclose" then none     -- hung up without reading: nothing of its own to judge
   else if o.late then some "connection-delayed-by-another-connection"
   else if o.rawOut then some "unparsable-bytes-on-a-connection"
   else if o.out.any (fun rep => otherTokens.any fun t => mentions t rep) then some "reply-caused-by-another-connection"
@@ -49,6 +50,7 @@ structure TimingCase where
   initial : Nat
   max : Nat
   conns : List (Nat × Nat)    -- (at, hold)
+  horizon : Option Nat := none  -- observation ends here; a server that is still running is left behind
 
 def slack : Nat := 60
 
@@ -65,6 +67,11 @@ def P_C15_timing (c : TimingCase) (o : TimingObs) : Verdict :=
     some "accepted-connection-dropped-without-being-served"
   else if o.result == "timeout" then
     if c.idle == 0 then some "timeout-without-idle-timeout"
+    -- the idle timeout is only taken when nothing is in service, and `listen` then returns at once: a peer that
+    -- connected long before `listen` returned and was never served shows that accepting had stopped while
+    -- something was still being served
+    else if o.conns.any (fun k => !k.gotFirst && k.accepted > 0 && k.accepted + 300 < o.ret) then
+      some "idle-timeout-taken-while-a-connection-was-still-in-service"
     else
       let lastAccept := served.foldl (fun m k => Nat.max m k.accepted) 0
       if o.ret + slack < lastAccept + c.idle * 1000 then some "timeout-earlier-than-idle-timeout-after-the-last-connection"
